@@ -147,6 +147,8 @@ def params_for(tier):
     variants = [("-r", "1,2,3"), ("-q", "0.1,0.9"), ("-r", "2"), ("-q", "0.5")]
     variants += [("-b", b, "-r", "1,2,3") for b in BIN_TYPES] + [("-b", b) for b in BIN_TYPES]
     variants += [("-agg", a) for a in AGGS]
+    # pre-aggregation on either axis (probabilities and quantiles are then derived from the 4-d ensemble array)
+    variants += [("-T", "24"), ("-T", "24", "-Tx", "time"), ("-T", "24", "-Tx", "time", "-r", "2"), ("-T", "24", "-Tx", "time", "-q", "0.5")]
     irs = [(), ("-r", "2"), ("-r", "0,5"), ("-q", "0.1,0.9")]
     ev = [(), ("-r", "50"), ("-r", "-50")]
     et = ["rank", "maprank", "impact", "mapimpact", "map"]
